@@ -99,6 +99,26 @@ impl Prop for C15 {
         cfg.unset("max-syntax-highlighting-length");
         cfg.unset("default-language");
         cfg.unset("relative-paths");
+        // the hunk styles may come from the git config instead of the command line (the option set
+        // that is run is derived from `cfg` at the last moment, so that the oracle below keeps
+        // reading the styles from `cfg`)
+        let via_gitconfig = t.chance(1, 4);
+        ctx.class_if(via_gitconfig, "hunk-styles-from-gitconfig");
+        let to_run = move |c: &Cfg| -> Cfg {
+            let mut c = c.clone();
+            if via_gitconfig {
+                let mut g = c.gitconfig.take().unwrap_or_default();
+                g.push_str("[delta]\n");
+                for k in ["minus-style", "minus-emph-style", "minus-non-emph-style", "plus-style", "plus-emph-style", "zero-style"] {
+                    if let Some(v) = c.get(k).map(|s| s.to_string()) {
+                        g.push_str(&format!("    {} = \"{}\"\n", k, v));
+                        c.unset(k);
+                    }
+                }
+                c.gitconfig = Some(g);
+            }
+            c
+        };
         let dark = cfg.has("dark");
         let themes = if dark { DARK_THEMES } else { LIGHT_THEMES };
         let t1 = t.ps(themes);
@@ -126,6 +146,7 @@ impl Prop for C15 {
         cfg2.set("syntax-theme", t2);
         let truecolor = cfg.get("true-color") == Some("always");
         let run = |c: &Cfg, input: &[u8], ctx: &Ctx| -> Result<Vec<u8>, Failure> {
+            let c = &to_run(c);
             exec::run_cfg(c, ctx, input).map_err(|mut f| {
                 f.detail = json!({"case": exec::case_json(c, input)});
                 f.traits = crate::props::c03::failure_traits(c, input);
